@@ -1,16 +1,35 @@
 #!/usr/bin/env python3
-"""run one or all mutants of a property: mutant.py <Cxx> [name-substring]"""
-import importlib, os, sys
+"""run one or all mutants of a property: mutant.py <Cxx> [name-substring] [--names-file f] [--json out]
+(--names-file/--json are used by the thorough tier to evaluate shards of mutants in parallel worker processes)"""
+import importlib, json, os, sys
 sys.path.insert(0, os.path.join(os.path.dirname(os.path.abspath(__file__)), '..'))
 from engine import thorough as T, run as R
-pid = sys.argv[1]
-sub = sys.argv[2] if len(sys.argv) > 2 else ''
+args = sys.argv[1:]
+names = None
+out = None
+if '--names-file' in args:
+    i = args.index('--names-file')
+    names = set(open(args[i + 1]).read().split('\n'))
+    del args[i:i + 2]
+if '--json' in args:
+    i = args.index('--json')
+    out = args[i + 1]
+    del args[i:i + 2]
+pid = args[0]
+sub = args[1] if len(args) > 1 else ''
 mod = importlib.import_module('rules.' + pid)
 known = {k['key'] for k in R.load_known() if k.get('status') == 'known'}
+results = []
 for name, path, meta in T.mutant_files(pid):
     if sub and sub not in name:
         continue
+    if names is not None and name not in names:
+        continue
     r = T.run_mutant(pid, mod, name, path, meta, known_keys=known)
+    results.append(r)
     print(r['name'], r['status'], r.get('keys', r.get('why')))
+    sys.stdout.flush()
     if r['status'] == 'fired' and name.startswith('own:'):
         T._remember(name, r.get('all_keys', r['keys']))
+if out:
+    json.dump(results, open(out, 'w'))
